@@ -59,6 +59,10 @@ def build(run):
     n = FacetNormal(tri)
     i = Index()
 
+    S2 = ufl.FunctionSpace(tri, E.LagrangeElement(cell, 2))
+    W = ufl.MixedFunctionSpace(S, S2, S)
+    (mv0, mv1, mv2), (mu0, mu1, mu2) = ufl.TestFunctions(W), ufl.TrialFunctions(W)
+
     def world(complex_mode=False, scale=None, subst=None, swap=False):
         """scale: {argument number: 0/1}; subst: {argument number: coefficient}; swap: exchange argument numbers 0 and 1"""
         def hook(w, e, comp, env):
@@ -128,6 +132,12 @@ def build(run):
         ("variable test function", lambda: u * ufl.variable(v) * dx - f * ufl.variable(v) * dx),
         ("variable around the whole integrand", lambda: ufl.variable(u * v) * dx - ufl.variable(f * v) * dx + ufl.variable(f * g) * dx),
         ("variable inside grad", lambda: inner(grad(ufl.variable(f * u)), grad(v)) * dx - ufl.variable(f) * v * ds),
+        # arguments with parts (MixedFunctionSpace): the form is split into blocks first; restrictions, jumps and averages wrapping sums over several parts
+        ("mixed space: volume terms", lambda: (mu0 * mv0 + mu1 * mv1 + grad(mu2)[0] * mv0 - f * mv1 - g * mv2) * dx),
+        ("mixed space: separate restrictions", lambda: mu0("+") * mv0("+") * dS + mu1("-") * mv0("+") * dS - f("+") * mv1("+") * dS),
+        ("mixed space: restricted sum of parts", lambda: (mu0 + mu1)("+") * mv0("+") * dS + mu2("-") * mv1("-") * dS - (f * mv0 + g * mv2)("+") * dS),
+        ("mixed space: only a restricted sum", lambda: (mu0 - mu2)("-") * (mv0 + mv1)("+") * dS - avg(f) * (mv1 + mv2)("-") * dS),
+        ("mixed space: jump and avg of sums of parts", lambda: jump(mu0 + mu1) * avg(mv0 - mv2) * dS + avg(g) * jump(mv0 + mv1) * dS),
     ]
 
     for fname, mkF in forms:
@@ -291,9 +301,6 @@ def build(run):
 
     # ---- action on forms over a MixedFunctionSpace with a user-supplied list of coefficients: the argument of part p is replaced by coefficient[p],
     # whichever parts actually occur in the form
-    S2 = ufl.FunctionSpace(tri, E.LagrangeElement(cell, 2))
-    W = ufl.MixedFunctionSpace(S, S2, S)
-    (mv0, mv1, mv2), (mu0, mu1, mu2) = ufl.TestFunctions(W), ufl.TrialFunctions(W)
     mixed_forms = [
         ("all trial parts present", lambda: (mu0 * mv0 + mu1 * mv1 + mu2 * mv0 + grad(mu1)[0] * mv2) * dx, 1),
         ("only trial part 1 present", lambda: mu1 * mv0 * dx + grad(mu1)[0] * mv1 * dx, 1),
